@@ -43,7 +43,13 @@ def conv (n : Nat) (a : Args) : Option String := do
   let p ← pArg a "padding"
   let d ← pArg a "dilation"
   let g ← a.nat "groups"
-  pure (fmtRes (convnd n x w b s p d g))
+  -- `forms=xyz` (conv1d, harness h_c17_conv1d_arr): letter `a` = the argument is passed as a one-element index array
+  let fs := ((a.get? "forms").getD "").toList
+  let asForm (k : Nat) (v : PArg) : PArg :=
+    match fs[k]?, v with
+    | some 'a', .int t => .arr [t]
+    | _, _ => v
+  pure (fmtRes (convnd n x w b (asForm 0 s) (asForm 1 p) (asForm 2 d) g))
 
 /-! ### the composed routines at the element types of the harness -/
 
